@@ -1,5 +1,6 @@
 import BornoModel.Eval
 import BornoModel.Props.C09
+import BornoModel.Lemmas.EvalInv
 /-! # C07 — no program can make the interpreter terminate abnormally
 
 In the model every partial host operation of the Go code (index, slice, unchecked assertion,
@@ -103,6 +104,31 @@ theorem natives_total (P : Platform) (n : Expect.Native) (args : List Val) (σ :
   cases (callNative P n args σ).2 with
   | ok v => exact Or.inl ⟨v, rfl⟩
   | error m => exact Or.inr ⟨m, rfl⟩
+
+/-- **no abnormal termination of the evaluator**: for every program, every fuel, every input, every
+    platform, running the program never reaches a partial host operation — it returns, or the model's
+    own fuel bound is hit (the Go code is still running / recursing), or a cyclic value is printed
+    (known finding) -/
+theorem eval_no_panic (P : Platform) (fuel : Nat) (prog : List Stmt) (repl : Bool) (input : List Char) :
+    interpret P fuel prog repl input ≠ .abn .panic := by
+  have := sat_interpretLoop P fuel prog 1 repl (initStore input)
+  unfold interpret
+  cases h : interpretLoop P fuel prog 1 repl (initStore input) with
+  | ok a σ => simp
+  | abn x => rw [h] at this; intro e; cases e; exact this rfl
+
+/-- the same for any expression or statement evaluated in any store (not only whole programs) -/
+theorem eval_no_panic_anywhere (P : Platform) (f : Nat) (e : Expr) (s : Stmt) (env : Nat) (repl : Bool) (σ : Store) :
+    evalE P f e env repl σ ≠ .abn .panic ∧ evalS P f s env repl σ ≠ .abn .panic := by
+  constructor
+  · have := (allSat P f).e e env repl σ
+    cases h : evalE P f e env repl σ with
+    | ok a σ' => simp
+    | abn x => rw [h] at this; intro e'; cases e'; exact this rfl
+  · have := (allSat P f).s s env repl σ
+    cases h : evalS P f s env repl σ with
+    | ok a σ' => simp
+    | abn x => rw [h] at this; intro e'; cases e'; exact this rfl
 
 /-- non-vacuity: the comparison and the shift that crashed the unrepaired interpreter -/
 example (P : Platform) (σ : Store) : binop P σ .EQUAL_EQUAL (.str ['a']) (.str ['a']) = .ok (.bool true) := by
